@@ -150,6 +150,10 @@ int main() {
                         cache[fld] = new GFqDom<int64_t>(P, e, mp);
                     }
                     Run<GFqDom<int64_t> > R(*cache[fld]); out = R.go(op, a);
+                } else if (e == 1) {     // prime field through GFqDom (Residu_t = uint64_t): one object per process
+                    static std::map<std::string, GFqDom<int64_t>*> cache1;
+                    if (!cache1.count(fld)) cache1[fld] = new GFqDom<int64_t>(P, e);
+                    Run<GFqDom<int64_t> > R(*cache1[fld]); out = R.go(op, a);
                 } else {
                     GFqDom<int64_t> F(P, e);
                     Run<GFqDom<int64_t> > R(F); out = R.go(op, a);
